@@ -546,7 +546,13 @@ func rulePXTag(c *Ctx) []Obligation {
 				}
 				if ci, ok := e.In.(ssa.CallInstruction); ok && isSortCall(ci) && allKeys {
 					if ok2, _ := sortOrderOK(c, ci); ok2 {
-						sorted = true
+						// "sorted order" is the ascending order of the keys themselves, not of something
+						// computed from them (lower-cased, reversed, by length)
+						if ok3, why3 := ascendingNaturalOrder(c, ci); ok3 {
+							sorted = true
+						} else {
+							t.note("the keys are sorted in ascending order of the keys themselves", false, "path %s: %s", traceOf(p), why3)
+						}
 					}
 				}
 			}
